@@ -72,6 +72,18 @@ def make_protocol(transport, T, R, keep, comm_addr=0xF7):
     return p
 
 
+def make_endpoint(transport, T, R, keep, api=False):
+    """(protocol object, execute(command) -> coroutine).  api=True routes the request through an inverter object
+    (Inverter._read_from_socket, the funnel of every public call) instead of ProtocolCommand.execute on a bare protocol."""
+    if api:
+        from vlib import siminv
+        inv = siminv.make_inverter("ES" if transport == "aa55" else "ET", transport == "tcp", T, R)
+        inv._protocol.keep_alive = keep
+        return inv._protocol, inv._read_from_socket
+    protocol = make_protocol(transport, T, R, keep)
+    return protocol, (lambda cmd: cmd.execute(protocol))
+
+
 def make_command(transport, protocol, spec=None):
     """spec: ("read", reg, count) | ("write", reg, value) | ("write_multi", reg, bytes) |
              ("aa55", payload_hex, response_type_hex)"""
@@ -100,9 +112,9 @@ def run_single(case, *, payload_fn=None, command=None, idle=True):
     peer = ScriptedPeer(responder, to_actions(case.get("script", []), T), default=("drop",))
     world = World(peer, connect_latency=case.get("latency", 0), connect_script=case.get("connect"))
     loop = VLoop(world, max_time=1e5)
-    protocol = make_protocol(transport, T, R, case.get("keep", False))
+    protocol, execute = make_endpoint(transport, T, R, case.get("keep", False), case.get("api", False))
     cmd = make_command(transport, protocol, command)
-    out = loop.run(cmd.execute(protocol))
+    out = loop.run(execute(cmd))
     obs = Obs()
     obs.outcome = out
     obs.t0 = out.t_start
@@ -147,7 +159,7 @@ def run_sequence(case, *, payload_fn=None, target=None):
     responder = make_responder(transport, payload_fn)
     peer = ScriptedPeer(responder, [], default=("drop",))
     world = World(peer, connect_latency=case.get("latency", 0))
-    protocol = make_protocol(transport, T, R, case.get("keep", False))
+    protocol, execute = make_endpoint(transport, T, R, case.get("keep", False), case.get("api", False))
     results = []
     errors = []
     steps = list(case["steps"])
@@ -175,7 +187,7 @@ def run_sequence(case, *, payload_fn=None, target=None):
                     ro.exc = ro.result = ro.hang = None
                     cmd = make_command(transport, protocol, st.get("command"))
                     try:
-                        ro.result = await cmd.execute(protocol)
+                        ro.result = await execute(cmd)
                         ro.kind = "ok"
                     except asyncio.CancelledError as ex:
                         ro.exc, ro.kind = ex, "CancelledError"
@@ -241,12 +253,12 @@ def run_sequence(case, *, payload_fn=None, target=None):
 class Session:
     """One protocol object, one peer/world, a current virtual loop; steps are executed one at a time."""
 
-    def __init__(self, transport, T, R, keep, latency=0, payload_fn=None):
-        self.transport, self.T, self.R, self.keep = transport, T, R, keep
+    def __init__(self, transport, T, R, keep, latency=0, payload_fn=None, api=False):
+        self.transport, self.T, self.R, self.keep, self.api = transport, T, R, keep, api
         self.responder = make_responder(transport, payload_fn)
         self.peer = ScriptedPeer(self.responder, [], default=("drop",))
         self.world = World(self.peer, connect_latency=latency)
-        self.protocol = make_protocol(transport, T, R, keep)
+        self.protocol, self.execute = make_endpoint(transport, T, R, keep, api)
         self.loop = VLoop(self.world, max_time=1e5)
         self.errors = []
         self.steps = []
@@ -268,7 +280,7 @@ class Session:
         i0, c0 = len(self.world.tx), len(self.world.connect_attempts)
         ro.t0 = self.loop.vtime
         cmd = make_command(self.transport, self.protocol, command)
-        out = self._run(cmd.execute(self.protocol))
+        out = self._run(self.execute(cmd))
         ro.exc, ro.result, ro.hang = out.exc, out.result, out.hang
         ro.kind = out.kind()
         ro.t_end = self.loop.vtime
@@ -306,5 +318,5 @@ class Session:
         return self.errors
 
     def case(self):
-        return {"transport": self.transport, "T": self.T, "R": self.R, "keep": self.keep,
+        return {"transport": self.transport, "T": self.T, "R": self.R, "keep": self.keep, "api": self.api,
                 "latency": self.world.connect_latency, "steps": list(self.steps)}
